@@ -46,7 +46,7 @@ def verify(a):
         rc1, out1 = sh(demo, cwd=wt, timeout=1800)
         print("demo with the change: rc=%d" % rc1)
         print(out1[-900:])
-        ok_demo = rc0 == 0 and rc1 != 0
+        ok_demo = (rc0 == 0 and rc1 == 0) if a.neutral else (rc0 == 0 and rc1 != 0)
         tests_ok = None
         if a.tests:
             rc, out = sh("cmake -G Ninja -S . -B _build -DTLX_BUILD_TESTS=ON -DCMAKE_BUILD_TYPE=RelWithDebInfo >/dev/null && "
@@ -56,7 +56,8 @@ def verify(a):
             tests_ok = "100% tests passed" in out
         meta.update(demo_cmd=a.demo_cmd, demo_rc_unmodified=rc0, demo_rc_with_change=rc1, demo_output_with_change=out1[-1500:],
                     existing_tests_regex=a.tests, existing_tests_pass_with_change=tests_ok, needs=a.needs, confirmed=bool(ok_demo and tests_ok is not False))
-        dst = os.path.join(VERIF, "seeded", a.name)
+        dst = os.path.join(VERIF, "neutral" if a.neutral else "seeded", a.name)
+        meta["kind"] = "behaviour-preserving change (the checks must stay quiet)" if a.neutral else "seeded defect"
         os.makedirs(dst, exist_ok=True)
         for f in os.listdir(a.agent_dir):
             p = os.path.join(a.agent_dir, f)
@@ -73,6 +74,8 @@ def verify(a):
 
 def check(a):
     dst = os.path.join(VERIF, "seeded", a.name)
+    if not os.path.exists(dst):
+        dst = os.path.join(VERIF, "neutral", a.name)
     meta = json.load(open(os.path.join(dst, "meta.json")))
     props = a.props.split(",") if a.props else [meta["property"]]
     rc, out = sh("git -C /repo status --porcelain --untracked-files=no")
@@ -94,7 +97,10 @@ def check(a):
         sh("git -C /repo checkout -- .")
         shutil.rmtree(os.path.join(VERIF, "replays"), ignore_errors=True)
     meta.setdefault("check_results", {}).update(results)
-    meta["caught"] = any(r["exit"] == 1 for r in meta["check_results"].values())
+    if "behaviour-preserving" in meta.get("kind", ""):
+        meta["quiet"] = all(r["exit"] == 0 for r in meta["check_results"].values())
+    else:
+        meta["caught"] = any(r["exit"] == 1 for r in meta["check_results"].values())
     with open(os.path.join(dst, "meta.json"), "w") as f:
         json.dump(meta, f, indent=1)
     return 0
@@ -106,6 +112,7 @@ def main():
     v = sub.add_parser("verify")
     v.add_argument("prop"); v.add_argument("agent_dir"); v.add_argument("name")
     v.add_argument("--demo-cmd", required=True); v.add_argument("--tests", default=""); v.add_argument("--needs", default="")
+    v.add_argument("--neutral", action="store_true", help="a behaviour-preserving change: the demo must pass with and without it")
     c = sub.add_parser("check")
     c.add_argument("name"); c.add_argument("--tier", default="quick"); c.add_argument("--scale", default="1.0"); c.add_argument("--props", default="")
     a = ap.parse_args()
